@@ -56,7 +56,7 @@ func init() {
 	core.Register(&core.Prop{
 		ID:    "C14",
 		Level: "exploration",
-		Rule: "pairs (chart tree, values): trees root / root+child / +grandchild / +aliased or tagged sibling / +namesake charts, each chart with or without a values.schema.json drawn from the family {type (7 names, lists), required, enum, minimum/maximum, minLength/maxLength, pattern, nested properties, additionalProperties true|false|schema, items, $schema draft-07|2020-12|none}; values built to satisfy every schema, to break exactly one keyword at one chart, or at random, then spread over the chart's own values.yaml, ancestor sections and user values (with overridden decoys and user nulls); subcharts switched off by condition/tags; a share of the trees contains namesakes (different charts with different schemas known under one name: sibling's child vs child's child, grandchild vs child, real name vs alias of another chart); 35% of the trees carry crds/ directories (root and subcharts, enabled or disabled); each pair runs through install dry-run, real install, upgrade, client-only template, lint, and the skip-schema-validation variants. " +
+		Rule: "pairs (chart tree, values): trees root / root+child / +grandchild / +aliased or tagged sibling / +namesake charts, each chart with or without a values.schema.json drawn from the family {type (7 names, lists), required, enum, minimum/maximum, minLength/maxLength, pattern, nested properties, additionalProperties true|false|schema, items, $schema draft-07|2020-12|none}; values built to satisfy every schema, to break exactly one keyword at one chart, or at random, then spread over the chart's own values.yaml, ancestor sections and user values (with overridden decoys and user nulls); subcharts switched off by condition/tags; a share of the trees contains namesakes (different charts with different schemas known under one name: sibling's child vs child's child, grandchild vs child, real name vs alias of another chart); 35% of the trees carry crds/ directories (root and subcharts, enabled or disabled); each pair runs through install dry-run, real install, upgrade, an upgrade history (base release made from the schema-less variant of the tree or with SkipSchemaValidation, then an upgrade to the pair's chart with values-reuse mode none|reuse|reset|reset-then-reuse and empty|same|overriding new values; expectation from the final values that helm's own functions give for the stored configuration), client-only template, lint, and the skip-schema-validation variants. " +
 			"distinct_nontrivial counts distinct (entry point, violating chart levels, first violated keyword, source of the planted violation) tuples of REJECT-expected pairs whose violation sits in a subchart or arrives from a non-default source, plus disabled-subchart-violates shapes.",
 		Assumptions: []string{
 			"effective values and the enabled set are taken from helm's own ProcessDependencies/CoalesceValues (judged by C04/C11)",
@@ -170,8 +170,18 @@ func normalize(x any) any {
 // judge computes the expected outcome of a pair. It returns an error text when helm's own value
 // computation fails or disagrees with the generator's model of the enabled set (harness problem).
 func judge(p *pair, asFloat bool) (*verdict, string) {
-	ch := p.files().Build()
-	vals := p.userVals(asFloat)
+	v, problem := judgeValues(p, p.files().Build(), p.userVals(asFloat), true)
+	if v != nil {
+		v.twice = lintValuesDiffer(p, asFloat, v.effective)
+	}
+	return v, problem
+}
+
+// judgeValues evaluates the schemas of the enabled charts of ch (a fresh chart object of pair p,
+// possibly with reused default values) on the effective values helm computes for vals. With
+// useModel the generator's own idea of the enabled set must agree with helm's; without it (upgrade
+// histories, where stored values take part) helm's processed dependency tree is taken as is.
+func judgeValues(p *pair, ch *chart.Chart, vals map[string]any, useModel bool) (*verdict, string) {
 	if err := chartutil.ProcessDependencies(ch, vals); err != nil {
 		return nil, "ProcessDependencies: " + err.Error()
 	}
@@ -180,7 +190,6 @@ func judge(p *pair, asFloat bool) (*verdict, string) {
 		return nil, "CoalesceValues: " + err.Error()
 	}
 	v := &verdict{effective: normalize(cv).(map[string]any), first: map[string]string{}, enabled: map[string]bool{}, viols: map[string][]sviol{}}
-	v.twice = lintValuesDiffer(p, asFloat, v.effective)
 	// helm's enabled set
 	var walk func(c *chart.Chart, path string)
 	walk = func(c *chart.Chart, path string) {
@@ -195,12 +204,15 @@ func judge(p *pair, asFloat bool) (*verdict, string) {
 		for _, s := range c.Path {
 			key += "/" + s
 		}
-		model := c.Enabled
-		for a := c.Parent; a != nil; a = a.Parent {
-			model = model && a.Enabled
-		}
-		if model != v.enabled[key] {
-			return nil, fmt.Sprintf("generator expects chart %s enabled=%v, helm's ProcessDependencies says %v", c.Display, model, v.enabled[key])
+		on := v.enabled[key]
+		if useModel {
+			model := c.Enabled
+			for a := c.Parent; a != nil; a = a.Parent {
+				model = model && a.Enabled
+			}
+			if model != on {
+				return nil, fmt.Sprintf("generator expects chart %s enabled=%v, helm's ProcessDependencies says %v", c.Display, model, on)
+			}
 		}
 		if c.Schema == nil {
 			continue
@@ -219,7 +231,7 @@ func judge(p *pair, asFloat bool) (*verdict, string) {
 			continue
 		}
 		v.viols[key] = out
-		if model {
+		if on {
 			v.violating = append(v.violating, c)
 			v.first[c.Level] = out[0].Keyword
 		} else {
@@ -227,6 +239,40 @@ func judge(p *pair, asFloat bool) (*verdict, string) {
 		}
 	}
 	return v, ""
+}
+
+// upgradeVerdict computes the expected outcome of an upgrade of release name to pair p's chart
+// with newVals under a values-reuse mode. The rule by which the stored configuration takes part
+// (Upgrade.reuseValues; judged by C13) is applied with helm's own functions to the chart and
+// config of the deployed revision as read back from release storage.
+func upgradeVerdict(w *env.World, name string, p *pair, mode string, newVals map[string]any) (*verdict, string) {
+	cur, err := w.Config("judge").Releases.Deployed(name)
+	if err != nil {
+		return nil, "no deployed base release: " + err.Error()
+	}
+	oldConfig := func() map[string]any { return env.DeepCopyMap(cur.Config) }
+	ch := p.files().Build()
+	vals := newVals
+	switch mode {
+	case "reset":
+	case "reuse":
+		oldVals, err := chartutil.CoalesceValues(cur.Chart, oldConfig())
+		if err != nil {
+			return nil, "CoalesceValues(old): " + err.Error()
+		}
+		vals = chartutil.CoalesceTables(vals, oldConfig())
+		ch.Values = oldVals
+	case "reset-then-reuse":
+		vals = chartutil.CoalesceTables(vals, oldConfig())
+	default:
+		if len(vals) == 0 && len(cur.Config) > 0 {
+			vals = oldConfig()
+		}
+	}
+	if vals == nil {
+		vals = map[string]any{}
+	}
+	return judgeValues(p, ch, vals, false)
 }
 
 // lintValuesDiffer replays, with helm's own functions, what pkg/lint does to the values before
@@ -266,6 +312,9 @@ type entry struct {
 	name string
 	skip bool
 	run  func() (err error, o obs) // executes the entry point on a fresh chart object
+	// runV, if set, is used instead of run and also returns the verdict that applies to this
+	// entry point (upgrade histories: the expected outcome depends on the stored release)
+	runV func() (err error, o obs, v *verdict)
 }
 
 func run(c core.Case, verbose bool) core.Result {
@@ -447,22 +496,62 @@ func run(c core.Case, verbose bool) core.Result {
 				return &lintErr{all: strings.Join(all, "\n"), gate: strings.Join(gate, "\n"), perFile: len(perFile), other: strings.Join(other, "\n")}, obs{}
 			}
 		}
+		// upgrade history: the base release comes from the schema-less variant of the tree or was
+		// installed with SkipSchemaValidation (so its stored values may violate); the upgrade under
+		// test goes to the pair's chart under one values-reuse mode, with empty or non-empty new values
+		hr := rand.New(rand.NewSource(d.PSeed ^ (int64(i) * 15485863)))
+		hBase := []string{"schemaless", "skip"}[hr.Intn(2)]
+		hMode := []string{"none", "reuse", "reset", "reset-then-reuse"}[hr.Intn(4)]
+		hNew := []string{"empty", "empty", "same", "override"}[hr.Intn(4)]
+		history := func() (error, obs, *verdict) {
+			name := rel + "h"
+			bf := p.files()
+			if hBase == "schemaless" {
+				for k := range bf {
+					if strings.HasSuffix(k, "values.schema.json") {
+						delete(bf, k)
+					}
+				}
+			}
+			if r := w.Exec("pre-"+name, name, env.Op{Kind: "install", SkipSchema: true, Vals: p.userVals(asFloat)}, bf.Build()); r.Err != nil {
+				res.Stat("upgrade_history_base_install_failed", 1)
+				return nil, obs{}, nil
+			}
+			newVals := func() map[string]any {
+				switch hNew {
+				case "same":
+					return p.userVals(asFloat)
+				case "override":
+					return map[string]any{"name": "web-1", "replicas": int64(2)}
+				}
+				return map[string]any{}
+			}
+			hv, problem := upgradeVerdict(w, name, p, hMode, newVals())
+			if problem != "" {
+				res.Stat("upgrade_history_value_computation_failed", 1)
+				return nil, obs{}, nil
+			}
+			from := w.Sim.Tick()
+			r := w.Exec("up-"+name, name, env.Op{Kind: "upgrade", ReuseValues: hMode == "reuse", ResetValues: hMode == "reset", ResetThenReuse: hMode == "reset-then-reuse", Vals: newVals()}, p.files().Build())
+			return r.Err, window(w, from), hv
+		}
 		entries := []entry{
-			{"install-dry-run", false, install(rel+"d", drySpelling, false)},
-			{"template", false, template(false)},
-			{"lint", false, lint(false)},
-			{"upgrade", false, upgrade(false)},
-			{"install", false, install(rel, "", false)},
-			{"install-dry-run", true, install(rel+"ds", drySpelling, true)},
-			{"lint", true, lint(true)},
+			{name: fmt.Sprintf("upgrade-history[base=%s mode=%s new=%s]", hBase, hMode, hNew), runV: history},
+			{name: "install-dry-run", skip: false, run: install(rel+"d", drySpelling, false)},
+			{name: "template", skip: false, run: template(false)},
+			{name: "lint", skip: false, run: lint(false)},
+			{name: "upgrade", skip: false, run: upgrade(false)},
+			{name: "install", skip: false, run: install(rel, "", false)},
+			{name: "install-dry-run", skip: true, run: install(rel+"ds", drySpelling, true)},
+			{name: "lint", skip: true, run: lint(true)},
 		}
 		switch i % 3 {
 		case 0:
-			entries = append(entries, entry{"template", true, template(true)})
+			entries = append(entries, entry{name: "template", skip: true, run: template(true)})
 		case 1:
-			entries = append(entries, entry{"upgrade", true, upgrade(true)})
+			entries = append(entries, entry{name: "upgrade", skip: true, run: upgrade(true)})
 		default:
-			entries = append(entries, entry{"install", true, install(rel+"s", "", true)})
+			entries = append(entries, entry{name: "install", skip: true, run: install(rel+"s", "", true)})
 		}
 
 		var sampleLines []string
@@ -473,7 +562,24 @@ func run(c core.Case, verbose bool) core.Result {
 			if e.skip {
 				label += "+skip"
 			}
-			if core.Guard(&res, label, func() { err, o = e.run() }) {
+			v, shape := v, shape // the verdict that applies to this entry point
+			isHistory := e.runV != nil
+			if isHistory {
+				var hv *verdict
+				if core.Guard(&res, label, func() { err, o, hv = e.runV() }) || hv == nil {
+					continue
+				}
+				v, shape = hv, "level="+hv.levels()
+				res.Stat("upgrade_history_ops", 1)
+				if hv.reject() {
+					res.Stat("upgrade_history_expected_reject", 1)
+					if hMode == "reuse" && hNew == "empty" {
+						res.Stat("upgrade_history_reuse_without_new_values_expected_reject", 1)
+					}
+				} else {
+					res.Stat("upgrade_history_expected_accept", 1)
+				}
+			} else if core.Guard(&res, label, func() { err, o = e.run() }) {
 				continue
 			}
 			res.Evals++
@@ -562,7 +668,7 @@ func run(c core.Case, verbose bool) core.Result {
 					res.Add("rejected-although-satisfied", cls(fmt.Sprintf("%s: every enabled chart satisfies its schema (mode %s)", label, p.Mode)), "%s was rejected by the schema step although the reference evaluator finds no violation | %s", label, detail())
 				} else if err == nil {
 					res.Stat("accepts_"+e.name, 1)
-					if e.name == "install" || e.name == "upgrade" {
+					if e.name == "install" || e.name == "upgrade" || isHistory {
 						res.Stat("accepted_real_op_mutations", int64(len(o.mutations)))
 						res.Stat("accepted_real_op_storage_writes", int64(len(o.stWrites)))
 					}
@@ -645,6 +751,9 @@ func post(a *core.Agg) string {
 	need("expected_reject_with_crds_in_enabled_chart", 50)
 	need("pairs_with_crds_in_disabled_subchart", 10)
 	need("expected_reject_at_chart_with_namesake", 30)
+	need("upgrade_history_expected_reject", 100)
+	need("upgrade_history_expected_accept", 50)
+	need("upgrade_history_reuse_without_new_values_expected_reject", 20)
 	need("expected_accept_with_enabled_namesake_schemas", 10)
 	need("accepted_real_op_mutations", 1)
 	need("accepted_real_op_storage_writes", 1)
